@@ -31,7 +31,7 @@ def clean_profile():
 
 
 @st.composite
-def hc_spec(draw):
+def hc_spec(draw, force=None):
     spec = draw(file_specs(clean_profile()))
     # make file-set numbers explicit for some origins, defaulted for others; creation time always pinned
     for op in spec['lfs'][0]['ops']:
@@ -42,10 +42,26 @@ def hc_spec(draw):
     n = draw(st.sampled_from([0, 0, 1, 1, 1, 2, 3]))
     spec['breaches'] = [{'k': draw(st.sampled_from(BREACHES)), 'sel': draw(st.integers(0, 100)),
                          'text': draw(st.sampled_from(BAD_NAMES))} for _ in range(n)]
+    if force is not None:
+        what, arg = force
+        if what == 'clean':
+            spec['breaches'] = []
+        elif what == 'late':
+            spec['breaches'] = []
+            spec['late'] = arg
+            return spec
+        else:
+            first = {'k': arg if what == 'b' else draw(st.sampled_from(['name', 'sul-id', 'hdr-id', 'ident-value'])),
+                     'sel': draw(st.integers(0, 100)), 'text': arg if what == 'text' else draw(st.sampled_from(BAD_NAMES))}
+            spec['breaches'] = [first] + spec['breaches'][:2]
+        return spec
     if n == 0 and draw(st.integers(0, 2)) == 0:
         # build the clean specification in the OTHER mode, switch, then assign a non-standard value and write
         spec['late'] = draw(st.sampled_from(LATE))
     return spec
+
+
+STRATA = [('b', k) for k in BREACHES] + [('late', k) for k in LATE] + [('text', t) for t in BAD_NAMES] + [('clean', None)]
 
 
 @st.composite
@@ -64,8 +80,15 @@ def seqs(draw, depth=0):
 
 
 @st.composite
-def histories(draw):
-    return {'kind': 'hc-history', 'seq': draw(seqs())}
+def histories(draw, force=None):
+    seq = draw(seqs())
+    if force is not None:
+        # the stratum's write comes first: directly (outside the mode) or as the body of a block (inside)
+        w = {'do': 'write', 'spec': draw(hc_spec(force))}
+        if draw(st.booleans()):
+            w = {'do': 'block', 'exit': 'normal', 'body': [w]}
+        seq = [w] + seq[:3]
+    return {'kind': 'hc-history', 'seq': seq}
 
 
 def apply_breach(spec, b):
@@ -242,7 +265,10 @@ class C17(Property):
 
     def searches(self, ctx):
         n = 480 if ctx.tier == 'quick' else 6400
-        return [('mode-histories', histories(), n // ctx.nshards)]
+        from vf.core import stratified
+        # free histories plus one stratum per breach kind, late-assignment kind and bad text (first write of the history)
+        return [('mode-histories', histories(), n // ctx.nshards)] + \
+            stratified('first', lambda f: histories(f), STRATA, n, ctx)
 
     def run(self, case, ctx):
         dw.check_import_location()
